@@ -29,6 +29,7 @@ func checkC10(r *Run) propMeta {
 	checkPrecedenceClosure(r, g, vm)
 	checkEmitterCoverage(r, "C10-R2-emitter-field")
 	checkLiteralClass(r)
+	checkRenderStateless(r)
 	r.Floor("C10-R1-precedence", 6)
 	r.Floor("C10-R2-emitter-field", 60)
 	r.Floor("C10-R3-literal-class", 2)
